@@ -465,40 +465,60 @@ static void check_piecewise(Ctx &c, const std::vector<int> &ix)
         c.count(K_PW_JUDGED);
 }
 
-// substitution of every assignment into a state must agree with its truth table
+// substitution of every assignment into a state must agree with its truth table.  Every value of the grid is exactly
+// representable as a double, so each assignment is also made with x (mode 1) or y (mode 2) given as a RealDouble of the
+// same value: "every assignment of numeric values" includes equal values of different kinds, and ties between an exact
+// and a floating number take their own branch in the relational constructors.  The float modes are applied to formulas
+// without membership and Eq/Ne atoms only (FiniteSet/Interval membership of a double is a question about sets, C27).
+static std::vector<RCP<const Basic>> VALF; // the same values as RealDouble
+static bool has_contains(const Basic &e)
+{
+    // Eq/Ne between an exact and a floating number are structural in this library by design (Eq(0, 0.0) is False;
+    // C29 only requires Eq/Ne to be symmetric and negations of each other), so they are kept out of the float modes too
+    if (is_a<Contains>(e) || is_a<Equality>(e) || is_a<Unequality>(e))
+        return true;
+    for (auto &a : e.get_args())
+        if (has_contains(*a))
+            return true;
+    return false;
+}
 static void check_subs(Ctx &c, int i)
 {
     const State &A = SS.S[i];
-    for (int p = 0; p < NPT; p++) {
-        c.eval();
-        map_basic_basic d;
-        d[X] = VALE[p / (int)VALS.size()];
-        d[Y] = VALE[p % (int)VALS.size()];
-        RCP<const Basic> r;
-        try {
-            r = A.e->subs(d);
-        } catch (SymEngineException &x) {
-            c.count(K_SUBS_THROW);
-            continue;
+    const int modes = has_contains(*A.e) ? 1 : 3;
+    for (int mode = 0; mode < modes; mode++)
+        for (int p = 0; p < NPT; p++) {
+            c.eval();
+            map_basic_basic d;
+            int px = p / (int)VALS.size(), py = p % (int)VALS.size();
+            d[X] = mode == 1 ? VALF[px] : VALE[px];
+            d[Y] = mode == 2 ? VALF[py] : VALE[py];
+            RCP<const Basic> r;
+            try {
+                r = A.e->subs(d);
+            } catch (SymEngineException &x) {
+                c.count(K_SUBS_THROW);
+                continue;
+            }
+            if (!is_a<BooleanAtom>(*r)) {
+                c.count(K_SUBS_UNEVAL);
+                continue;
+            }
+            if (TB[i].und >> p & 1) {
+                c.count(K_POINTS_UND);
+                continue;
+            }
+            c.count(K_SUBS_ATOM);
+            c.nontrivial();
+            bool got = down_cast<const BooleanAtom &>(*r).get_val(), want = TB[i].val >> p & 1;
+            if (got != want) {
+                c.violation(std::string(mode ? "subs-float:" : "subs:") + type_code_name(A.e->get_type_code()),
+                            "(" + sstr(A.e) + ").subs" + pt_str(p) + (mode == 1 ? " [x as double]" : mode == 2 ? " [y as double]" : "") + " = "
+                                + (got ? "True" : "False") + " but the formula [" + A.key + "] is " + (want ? "true" : "false")
+                                + " there; formula obtained by " + A.recipe);
+                return;
+            }
         }
-        if (!is_a<BooleanAtom>(*r)) {
-            c.count(K_SUBS_UNEVAL);
-            continue;
-        }
-        if (TB[i].und >> p & 1) {
-            c.count(K_POINTS_UND);
-            continue;
-        }
-        c.count(K_SUBS_ATOM);
-        c.nontrivial();
-        bool got = down_cast<const BooleanAtom &>(*r).get_val(), want = TB[i].val >> p & 1;
-        if (got != want) {
-            c.violation(std::string("subs:") + type_code_name(A.e->get_type_code()),
-                        "(" + sstr(A.e) + ").subs" + pt_str(p) + " = " + (got ? "True" : "False") + " but the formula [" + A.key
-                            + "] is " + (want ? "true" : "false") + " there; formula obtained by " + A.recipe);
-            break;
-        }
-    }
     c.outcome(std::string("subs:") + type_code_name(A.e->get_type_code()));
 }
 
@@ -512,6 +532,8 @@ int main(int argc, char **argv)
     NPT = VALS.size() * VALS.size();
     for (auto &q : VALS)
         VALE.push_back(Rational::from_two_ints(q.get_num().get_si(), q.get_den().get_si()));
+    for (auto &q : VALS)
+        VALF.push_back(real_double(q.get_d()));
     X = symbol("x");
     Y = symbol("y");
     RCP<const Set> iv01 = interval(integer(0), integer(1), false, false);
